@@ -186,7 +186,7 @@ def gen_curved(rng):
     lam = C / f
     seg = lam / rng.uniform(15, 40)
     rad = seg / rng.uniform(12, 60)
-    kind = rng.choice(['arc', 'helix', 'taper', 'taper-bent'])
+    kind = rng.choice(['arc', 'helix', 'taper', 'taper-bent', 'arc-axial'])
     objs = []
     if kind == 'arc':
         n = rng.randint(4, 9)
@@ -204,6 +204,22 @@ def gen_curved(rng):
             objs.append(dict(kind='wire', nseg=rng.randint(2, 4), p0=e, p1=o, r=rad))
         else:
             objs.append(dict(kind='wire', nseg=rng.randint(2, 4), p0=o, p1=e, r=rad))
+    elif kind == 'arc-axial':
+        # arcs whose two ends lie on the z axis while their body does not: a loop fed at the bottom or top (one arc closed
+        # on itself), or a half circle closed by a wire on the axis (D loop)
+        n = rng.randint(8, 12)
+        R = seg * n / (2 * math.pi) * rng.uniform(0.9, 1.3)
+        if rng.random() < 0.5:
+            a1 = rng.choice([-90.0, 90.0])
+            objs.append(dict(kind='arc', nseg=n, radius=R, a1=a1, a2=a1 + 360.0, r=rad))
+        else:
+            objs.append(dict(kind='arc', nseg=max(4, n // 2), radius=R, a1=90.0, a2=270.0, r=rad))
+            w = dict(kind='wire', nseg=rng.randint(3, 5), p0=[0.0, 0.0, R], p1=[0.0, 0.0, -R], r=rad)
+            if rng.random() < 0.5:
+                w['p0'], w['p1'] = w['p1'], w['p0']
+            objs.append(w)
+            if rng.random() < 0.5:
+                objs.reverse()
     elif kind == 'helix':
         n = rng.randint(8, 14)
         ln = seg * n / 4
